@@ -191,6 +191,13 @@ def runOp (cs : Suite) (op : String) (a : List String) : Option String :=
     let c ← runP pCom c; let rv ← runP (pVec pInt) revealed; let pk ← runP pPk pk
     let bases ← runP (pVec pInt) bases; let ri ← runP (pOpt pIdxVec) ridx
     pure <| render rCom (extendCommitmentWithPk c rv pk bases ri [])
+  | "cl.extendcpk", [c, msgs, cpk, ridx] => do
+    let c ← runP pCom c; let ms ← runP (pVec pInt) msgs; let cpk ← runP pCpk cpk
+    let ri ← runP (pOpt pIdxVec) ridx
+    pure <| render rCom (extendCommitmentWithCpk c ms cpk ri [])
+  | "cl.maphash", [b] => do
+    let b ← pBytes b
+    pure <| "ok " ++ ",".intercalate (rInt (mapMessageToIntegerAsHash b))
   | "cl.zkgen", [msgs, C, Ct, pk, bases, cpk, unrev, tape] => do
     let msgs ← runP (pVec pInt) msgs; let C ← runP pCom C; let Ct ← runP (pOpt pCom) Ct
     let pk ← runP pPk pk; let bases ← runP (pVec pInt) bases; let cpk ← runP (pOpt pCpk) cpk
